@@ -159,3 +159,14 @@ Proof.
   symmetry. apply (enc0_ok cname site env hidden). apply good_canon. exact G.
 Qed.
 End Structural.
+
+Theorem encode_structural_ok (cname : cls -> string * string) (site : string)
+        (env : string -> string -> lookup) (hidden : string -> option cls) t1 t2 :
+  ok_type cname env hidden t1 -> ok_type cname env hidden t2 -> fields_perm t1 t2 ->
+  type_to_json cname site t1 = type_to_json cname site t2.
+Proof.
+  intros O1 O2 P. apply (encode_structural cname site env hidden); try assumption.
+  - apply (good_of_ok cname site env hidden). exact O1.
+  - apply (good_of_ok cname site env hidden). exact O2.
+  - destruct O1 as [[_ [_ W]] _]. exact W.
+Qed.
